@@ -30,7 +30,7 @@ ASSUMPTIONS = [
     'only spellings the library documents/accepts are written (sound-first); inadmissible ones are listed in DESIGN.md section 6',
     'text content excludes tab (pyparsing expands tabs) and names exclude backslash (pyparsing converts \\n \\t \\0 in quoted names): outside the printable / DBML-expressible domain',
 ]
-FLOORS = {'quick': {'has_schema': 20, 'has_alias': 10, 'composite_ref': 5, 'm2m': 5, 'enum_col': 20,
+FLOORS = {'quick': {'has_schema': 20, 'has_alias': 10, 'same_name_two_schemas': 30, 'composite_ref': 5, 'm2m': 5, 'enum_col': 20,
                     'multiline_note': 20, 'quoted_ident': 50, 'reserved_ident': 20, 'inline_ref': 20,
                     'multiline_settings': 20},
           'thorough': {'has_schema': 200, 'has_alias': 100, 'composite_ref': 50, 'm2m': 50, 'enum_col': 200,
@@ -68,6 +68,9 @@ def classify(s: ASchema, lines) -> list:
         cls.append('has_schema')
     if any(t.alias for t in s.tables):
         cls.append('has_alias')
+    tn = [t.name for t in s.tables]
+    if len(set(tn)) < len(tn):
+        cls.append('same_name_two_schemas')
     refs = s.all_refs()
     if any(len(r.c1) > 1 for r in refs):
         cls.append('composite_ref')
